@@ -145,11 +145,16 @@ fn gen_obj(c: &mut Choice) -> Obj {
         let j = c.idx(i + 1);
         secs.swap(i, j);
     }
-    f.add_sec(b"", m::SHT_NULL, vec![]);
+    // (rarely the first real section sits at index 0: no SHT_NULL entry in front)
+    let no_null = c.u8() >= 236;
+    let mut sec_names: Vec<Vec<u8>> = vec![];
+    if !no_null {
+        f.add_sec(b"", m::SHT_NULL, vec![]);
+        sec_names.push(vec![]);
+    }
     let mut idx_of = std::collections::HashMap::new();
-    let mut sec_names = vec![vec![]];
     // rarely: more than 0xffff sections, so that sh_link values and section indexes exceed 16 bits
-    let big = c.u8() == 0xA7 && c.u8() >= 208;
+    let big = !no_null && c.u8() == 0xA7 && c.u8() >= 208;
     if big {
         for _ in 0..0xffff + c.below(40) as usize {
             f.add_sec(b"", m::SHT_PROGBITS, vec![]);
@@ -187,11 +192,8 @@ fn gen_obj(c: &mut Choice) -> Obj {
                 // (with extended numbering section 0 carries the section count in sh_size: not a data range either)
                 let k = if big { 1 + c.idx(nsec - 1) } else { c.idx(nsec) };
                 if f.secs[k].no_space {
-                    if big {
-                        1
-                    } else {
-                        0
-                    }
+                    // fall back to the first section that has file bytes (index 0 is the NULL section unless it was left out)
+                    (if big { 1 } else { 0 }..nsec).find(|j| !f.secs[*j].no_space).unwrap_or(0) as u32
                 } else {
                     k as u32
                 }
